@@ -15,8 +15,9 @@ VARIABLES i, done
 vars == <<i, done>>
 
 SeqToSet(s) == { s[j] : j \in 1..Len(s) }
-ToSc(x) == Scenario(x.mode, x.hash, x.url, x.fb, x.cache, x.files, x.arch, x.patch, x.phash, x.purl, x.pcache,
+Scenario0(x) == Scenario(x.mode, x.hash, x.url, x.fb, x.cache, x.files, x.arch, x.patch, x.phash, x.purl, x.pcache,
                     x.pfiles, x.parch, x.pdir, x.diff, x.cmd)
+ToSc(x) == Vcs(Scenario0(x), x.kind, x.vcs, x.rev)
 ToFS(o) == [dir |-> SeqToSet(o.dir), cache |-> o.cache, pcache |-> o.pcache]
 
 Verdict(id, clause, run, stage, expok, expfs) ==
@@ -32,12 +33,15 @@ Clause(c, sc, r) ==
         got == ToFS(c.obs[r])
         gok == c.obs[r].ok
     IN IF BadHashUsed(sc, got) THEN "NeverUnpackBadHash"
-       ELSE IF NoDownload(sc) /\ (got.cache # sc.cache \/ got.pcache # sc.pcache \/ (gok /\ ~exp.ok))
-            THEN "NodownloadFetchesNothing"
+       ELSE IF NoDownload(sc) /\ (got.cache # sc.cache \/ got.pcache # sc.pcache \/ (gok /\ ~exp.ok)
+                                   \/ c.obs[r].calls # <<>> \/ (sc.kind # "file" /\ pre.dir = {} /\ got.dir # {}))
+            THEN "NoDownloadNeverFetches"
        ELSE IF gok /\ HalfPrepared(sc, got.dir)
             THEN (IF r = 2 THEN "SecondRunNeverAcceptsHalfPrepared" ELSE "AcceptsHalfPrepared")
        ELSE IF ~gok /\ pre.dir = {} /\ got.dir # {} THEN "FailedPatchLeavesNoDir"
        ELSE IF exp.ok # gok \/ exp.fs # got THEN "Outcome"
+       \* the VCS client is run exactly as documented (clone url directory [+ checkout revision]; svn checkout -r)
+       ELSE IF exp.calls # c.obs[r].calls THEN "ClientCalls"
        \* the exit status has to tell a failed command from a successful one
        ELSE IF c.obs[r].rc0 # gok THEN "ExitStatus"
        ELSE "ok"
